@@ -30,7 +30,7 @@ impl Prop for C08 {
         vec!["the recording shim iterates all parameters, as every caller in the repository does".into()]
     }
     fn cases(&self, tier: Tier) -> u64 {
-        tier.pick(40_000, 800_000)
+        tier.pick(300000, 3000000)
     }
     fn fuzz_plan(&self, tier: Tier) -> Vec<(&'static str, u64)> {
         if tier == Tier::Thorough {
